@@ -73,6 +73,23 @@ theorem position_bound (X Wn : Int) (hw : roundHalfUp Wn 65536 ≠ 0) :
   unfold abs at r3 ⊢
   split at r3 <;> split at r3 <;> split <;> omega
 
+/-- the same bound in units of the result when the rounded homogeneous coordinate is at least 1.0:
+    `2·|x0·Wn − 65536·X| ≤ 3·|Wn| + 65536·|x0| + 98304` -/
+theorem position_bound_units (X Wn : Int) (hw : 65536 ≤ abs (roundHalfUp Wn 65536)) :
+    2 * abs (Int.tdiv (roundHalfUp X 65536 * 65536) (roundHalfUp Wn 65536) * Wn - 65536 * X) ≤
+      3 * abs Wn + 65536 * abs (Int.tdiv (roundHalfUp X 65536 * 65536) (roundHalfUp Wn 65536)) + 98304 := by
+  have hne : roundHalfUp Wn 65536 ≠ 0 := by
+    intro h; rw [h] at hw; unfold abs at hw; simp at hw
+  have pb := position_bound X Wn hne
+  have r2 : -32767 ≤ 65536 * roundHalfUp Wn 65536 - Wn ∧ 65536 * roundHalfUp Wn 65536 - Wn ≤ 32768 := by
+    unfold roundHalfUp; omega
+  generalize roundHalfUp Wn 65536 = w at *
+  generalize Int.tdiv (roundHalfUp X 65536 * 65536) w = x0 at *
+  generalize abs (x0 * Wn - 65536 * X) = E at *
+  generalize abs x0 = ax at *
+  unfold abs at *
+  split at hw <;> split at pb <;> split <;> omega
+
 /-- reducing a 16.16 coordinate modulo `w` pixels commutes with taking its pixel index -/
 theorem emod_mul_ediv (v w : Int) (hw : 0 < w) : (v % (w * 65536)) / 65536 = (v / 65536) % w := by
   have hM : 0 < w * 65536 := by omega
